@@ -65,12 +65,23 @@ class MessageAssembler:
         self.packet_count = 0
 
     def on_pdu(self, pdu: bytes) -> None:
-        self.packets_received += 1
+        if not pdu:
+            logger.warning("empty PDU")
+            self.reset()
+            return
 
         transaction_label = pdu[0] >> 4
         packet_type = Protocol.PacketType((pdu[0] >> 2) & 3)
         c_r = (pdu[0] >> 1) & 1
         ipid = pdu[0] & 1
+
+        header_size = 4 if packet_type == Protocol.PacketType.START else 3
+        if len(pdu) < header_size:
+            logger.warning("PDU too short")
+            self.reset()
+            return
+
+        self.packets_received += 1
 
         if c_r == 0 and ipid != 0:
             logger.warning("invalid IPID in command frame")
